@@ -38,7 +38,16 @@ class Facts:
                 r = json.loads(line)
                 k = r["rec"]
                 if k == "body":
-                    self.bodies[r["path"]] = Body(r)
+                    p = r["path"]
+                    if p in self.bodies:
+                        # anonymous `const _` items (derive output, tracing
+                        # callsites) share a printed path: keep all, suffixed
+                        n = 2
+                        while "%s#%d" % (p, n) in self.bodies:
+                            n += 1
+                        p = "%s#%d" % (p, n)
+                        r["path"] = p
+                    self.bodies[p] = Body(r)
                 elif k == "adt":
                     self.adts[r["path"]] = r
                 elif k == "impl":
@@ -387,7 +396,14 @@ class Body:
             if pr == "*":
                 base = ("deref", base)
             elif pr[0] == ".":
-                base = ("field", base, pr[2] if pr[2] is not None else pr[1])
+                if base[0] == "bin" and base[1].endswith("WithOverflow"):
+                    # (a op b).0 of a checked arithmetic pair is the result
+                    if pr[1] == 0:
+                        base = ("bin", base[1][: -len("WithOverflow")], base[2], base[3])
+                    else:
+                        base = ("ovf", base)
+                else:
+                    base = ("field", base, pr[2] if pr[2] is not None else pr[1])
             elif pr[0] == "[]":
                 base = ("idx", base, self.term_of_local(pr[1], depth + 1, seen))
             elif pr[0] == "as":
@@ -438,9 +454,9 @@ class Body:
         if k == "use":
             return self.term_of_operand(rv[1], depth, seen)
         if k == "ref":
-            return ("ref", self.term_of_place(rv[2], depth, seen))
+            return ("ref", self.term_of_place(rv[2], depth, seen), bool(rv[1]))
         if k == "ptr":
-            return ("ref", self.term_of_place(rv[2], depth, seen))
+            return ("ref", self.term_of_place(rv[2], depth, seen), "Mut" in str(rv[1]))
         if k == "deref":
             return self.term_of_place(rv[1], depth, seen)
         if k == "cast":
